@@ -186,14 +186,16 @@ def stepK (ttl : Nat) (w : String) (o : Option Entry) : Ev → Option Entry
     if r.workID = w then
       (match o with
        | none => some ⟨r, t⟩
-       | some v => if blk v.data < blk r then some ⟨r, t⟩ else some v)
+       | some v =>
+         if expired ttl t v then some ⟨r, t⟩
+         else if blk v.data < blk r then some ⟨r, t⟩ else some v)
     else o
   | .remove _ id => if id = w then none else o
   | .gc t => o.filter (fun e => !expired ttl t e)
   | .view _ _ => o
 
-theorem get_add1 (t : Nat) (s : Store) (r : CheckResult) (w : String) :
-    get (add1 t s r) w = stepK 0 w (get s w) (.add t r) := by
+theorem get_add1 (ttl t : Nat) (s : Store) (r : CheckResult) (w : String) :
+    get (add1 ttl t s r) w = stepK ttl w (get s w) (.add t r) := by
   simp only [add1, stepK]
   by_cases hw : r.workID = w
   · subst hw
@@ -204,7 +206,9 @@ theorem get_add1 (t : Nat) (s : Store) (r : CheckResult) (w : String) :
       simp only
       split
       · simp [get_set_self]
-      · exact hg
+      · split
+        · simp [get_set_self]
+        · exact hg
   · simp only [if_neg hw]
     cases hg : get s r.workID with
     | none => simp [get_set_ne _ _ (Ne.symm hw)]
@@ -212,7 +216,9 @@ theorem get_add1 (t : Nat) (s : Store) (r : CheckResult) (w : String) :
       simp only
       split
       · simp [get_set_ne _ _ (Ne.symm hw)]
-      · rfl
+      · split
+        · simp [get_set_ne _ _ (Ne.symm hw)]
+        · rfl
 
 theorem get_remove1 (s : Store) (id w : String) :
     get (remove1 s id) w = if id = w then none else get s w := by
@@ -231,18 +237,20 @@ theorem get_remove1 (s : Store) (id w : String) :
 theorem get_step {ttl : Nat} {s : Store} (h : WF s) (e : Ev) (w : String) :
     get (step ttl s e) w = stepK ttl w (get s w) e := by
   cases e with
-  | add t r => simpa [step, stepK] using get_add1 t s r w
+  | add t r => simpa [step, stepK] using get_add1 ttl t s r w
   | remove t id => simpa [step, stepK] using get_remove1 s id w
   | gc t => simpa [step, stepK, gc] using get_filter (fun e => !expired ttl t e) h.1 w
   | view t out => rfl
 
-theorem WF_add1 {s : Store} (h : WF s) (t : Nat) (r : CheckResult) : WF (add1 t s r) := by
+theorem WF_add1 {s : Store} (h : WF s) (ttl t : Nat) (r : CheckResult) : WF (add1 ttl t s r) := by
   simp only [add1]
   split
   · exact WF_set h rfl
   · split
     · exact WF_set h rfl
-    · exact h
+    · split
+      · exact WF_set h rfl
+      · exact h
 
 theorem WF_remove1 {s : Store} (h : WF s) (id : String) : WF (remove1 s id) := by
   simp only [remove1]
@@ -252,7 +260,7 @@ theorem WF_remove1 {s : Store} (h : WF s) (id : String) : WF (remove1 s id) := b
 
 theorem WF_step {ttl : Nat} {s : Store} (h : WF s) (e : Ev) : WF (step ttl s e) := by
   cases e with
-  | add t r => exact WF_add1 h t r
+  | add t r => exact WF_add1 h ttl t r
   | remove t id => exact WF_remove1 h id
   | gc t => exact WF_filter _ h
   | view t out => exact h
@@ -323,5 +331,87 @@ theorem candTimes_self (r : CheckResult) (t : Nat) (pre : List Ev) :
   have : clean r.workID (blk r) (.add t r) = true := by simp [clean, removes, addsHigher]
   rw [if_pos this]
   simp [addTime]
+
+/-! ### dominating add times -/
+
+theorem domTimes_self (ttl : Nat) (r : CheckResult) (b ta mx t : Nat) (pre : List Ev)
+    (hmx : mx ≤ blk r) (hb : b ≤ blk r) (hf : ta - t ≤ ttl) :
+    t ∈ domTimes ttl r.workID b ta (.add t r :: pre) mx := by
+  simp only [domTimes, beq_self_eq_true, if_true]
+  have : (decide (mx ≤ blk r) && decide (b ≤ blk r) && fresh ttl ta t) = true := by
+    simp [fresh, hmx, hb, hf]
+  rw [if_pos this]
+  simp
+
+theorem domTimes_add_same {ttl : Nat} {w : String} {b ta mx a t : Nat} {r : CheckResult} {pre : List Ev}
+    (hw : r.workID = w) (h : a ∈ domTimes ttl w b ta pre (max mx (blk r))) :
+    a ∈ domTimes ttl w b ta (.add t r :: pre) mx := by
+  simp only [domTimes, hw, beq_self_eq_true, if_true]
+  exact List.mem_append_right _ h
+
+theorem domTimes_add_other {ttl : Nat} {w : String} {b ta mx t : Nat} {r : CheckResult} {pre : List Ev}
+    (hw : r.workID ≠ w) : domTimes ttl w b ta (.add t r :: pre) mx = domTimes ttl w b ta pre mx := by
+  simp [domTimes, hw]
+
+theorem domTimes_remove_other {ttl : Nat} {w id : String} {b ta mx t : Nat} {pre : List Ev}
+    (hw : id ≠ w) : domTimes ttl w b ta (.remove t id :: pre) mx = domTimes ttl w b ta pre mx := by
+  simp [domTimes, hw]
+
+/-! ### the live part of a slot -/
+
+/-- the slot as a view at time `t` sees it -/
+def liveO (ttl t : Nat) (o : Option Entry) : Option Entry := o.filter (fun e => !expired ttl t e)
+
+theorem liveO_some_iff {ttl t : Nat} {o : Option Entry} {e : Entry} :
+    liveO ttl t o = some e ↔ o = some e ∧ expired ttl t e = false := by
+  simp [liveO, Option.filter_eq_some_iff]
+
+theorem liveO_liveO {ttl t t' : Nat} (h : t ≤ t') (o : Option Entry) :
+    liveO ttl t' (liveO ttl t o) = liveO ttl t' o := by
+  cases o with
+  | none => rfl
+  | some e =>
+    by_cases hx : expired ttl t e = true
+    · have : expired ttl t' e = true := by rw [expired_true_iff] at *; omega
+      simp [liveO, Option.filter, hx, this]
+    · simp [liveO, Option.filter, hx]
+
+theorem liveO_stepK (ttl : Nat) (w : String) (o : Option Entry) (x : Ev) :
+    liveO ttl x.now (stepK ttl w o x) = liveO ttl x.now (stepK ttl w (liveO ttl x.now o) x) := by
+  cases o with
+  | none => rfl
+  | some v =>
+    by_cases hx : expired ttl x.now v = true
+    · cases x with
+      | add t r =>
+        simp only [Ev.now] at hx
+        by_cases hw : r.workID = w <;> simp [liveO, Option.filter, stepK, hw, hx, Ev.now]
+      | remove t id =>
+        simp only [Ev.now] at hx
+        by_cases hw : id = w <;> simp [liveO, Option.filter, stepK, hw, hx, Ev.now]
+      | gc t => simp only [Ev.now] at hx; simp [liveO, Option.filter, stepK, hx, Ev.now]
+      | view t out => simp only [Ev.now] at hx; simp [liveO, Option.filter, stepK, hx, Ev.now]
+    · simp [liveO, Option.filter, hx]
+
+theorem liveO_gc (ttl t : Nat) (w : String) (o : Option Entry) :
+    liveO ttl t (stepK ttl w o (.gc t)) = liveO ttl t o := by
+  cases o with
+  | none => rfl
+  | some v => by_cases hx : expired ttl t v = true <;> simp [liveO, Option.filter, stepK, hx]
+
+theorem mem_view_live {ttl t : Nat} {s : Store} (h : WF s) (r : CheckResult) :
+    r ∈ view ttl t s ↔ ∃ e, liveO ttl t (get s r.workID) = some e ∧ e.data = r := by
+  rw [mem_view h]
+  constructor
+  · rintro ⟨e, hg, he, hx⟩; exact ⟨e, liveO_some_iff.mpr ⟨hg, hx⟩, he⟩
+  · rintro ⟨e, hl, he⟩
+    obtain ⟨hg, hx⟩ := liveO_some_iff.mp hl
+    exact ⟨e, hg, he, hx⟩
+
+theorem nodup_of_map {α β} (f : α → β) : ∀ {l : List α}, (l.map f).Nodup → l.Nodup
+  | [], _ => List.nodup_nil
+  | a :: l, h => by
+    simp only [List.map_cons, List.nodup_cons] at h ⊢
+    exact ⟨fun ha => h.1 (List.mem_map.mpr ⟨a, ha, rfl⟩), nodup_of_map f h.2⟩
 
 end AutoVerif.C10
